@@ -28,9 +28,15 @@ MUTANTS = [
     ('c10-epoll-disconnect-on-plain-write-readiness', 'C10', P, "        self._disconnected_flag = select.EPOLLHUP | select.EPOLLERR\n", "        self._disconnected_flag = select.EPOLLHUP | select.EPOLLERR | select.EPOLLOUT\n"),
     ('c10-poll-read-event-reported-as-write', 'C10', P, "                if event & select.POLLOUT:\n                    self.fire(_write(fd), self.getTarget(fd))", "                if event & (select.POLLOUT | select.POLLIN):\n                    self.fire(_write(fd), self.getTarget(fd))"),
     ('c10-epoll-write-not-reported-with-read', 'C10', P, "                if event & select.EPOLLOUT:\n                    self.fire(_write(fd), self.getTarget(fd))", "                if event & select.EPOLLOUT and not event & select.EPOLLIN:\n                    self.fire(_write(fd), self.getTarget(fd))"),
+    ('c10-revert-discard-after-close-fix', 'C10', 'circuits/core/pollers.py',
+     "        if fileno < 0:\n            # already closed: use the number it was registered under\n            fileno = next((k for k, v in self._map.items() if v is fd), fileno)\n",
+     ""),
+    ('c10-revert-stale-number-fix', 'C10', 'circuits/core/pollers.py',
+     "        if not isinstance(fd, int) and fd.fileno() != fileno:\n            # closed without discard() and the number is in use again: not ours\n            event = select.POLLNVAL\n",
+     ""),
 ]
 # Not listed (equivalent for C10's observables, tried and MISSED for that reason):
-# * "_targets not deleted on discard" (X list): every later registration overwrites _targets[fd] and nothing is emitted for an
+# * "_targets not deleted on discard" (X list): every later registration overwrites _targets[fdand nothing is emitted for an
 #   unregistered descriptor, so the stale entry is never read; it is a retention (C12's subject).  Its mirror image "addReader
 #   uses setdefault for the target" is equivalent as long as discard deletes the entry.  The observable slips of the target map
 #   are listed: c10-addwriter-does-not-set-target, c10-removereader-deletes-target-while-writer, c10-gettarget-always-parent.
